@@ -183,6 +183,13 @@ class Automaton(object):
             cs = s2.canon(a2.cells[((), self.field_off('current_state'))][1])
             d = s2.dom(cs)
             if d.const() is None:
+                bad = [ob for ob in I.obs.values() if not ob.ok]
+                if bad:
+                    # the state came out of memory the function must not read (a row past the table, an uninitialised cell)
+                    from ..facts import Defect
+                    raise Defect('switch|%s|%s|%s' % (self.switch, bad[0].kind, bad[0].sym or ''),
+                                 '%s: the resulting state is read from memory the function may not rely on (%s): the next state is not determined by state, event and time'
+                                 % (self.switch, bad[0].msg), function=self.switch, file='lltdResponder/lltdAutomata.c')
                 raise AnalysisBroken('%s: resulting state is not a single value on a path (%s)' % (self.switch, d))
             if T == 0:
                 cls = 'none'
